@@ -228,6 +228,8 @@ package scanner
 //@             string(s.src[fileOff(s, pos):s.offset]) == token.tokens[tok]
 //@   ensures [comment-len] tok == token.COMMENT ==> len(lit) <= s.offset - fileOff(s, pos)
 //@   ensures [comment-shape] tok == token.COMMENT ==> len(lit) >= 1 && (lit[0] == '/' ==> len(lit) >= 2)
+//@   ensures [eof-state] tok == token.EOF ==> !s.insertSemi && s.unitVal == ""
+//@   ensures [eof-absorbing] old(s.ch) == -1 && !old(s.insertSemi) && old(s.unitVal) == "" ==> tok == token.EOF
 //@   ensures [gap-is-space] s.mode & ScanComments != 0 && old(s.unitVal) == "" ==>
 //@             (forall k in old(s.offset)..fileOff(s, pos) :: s.src[k] == ' ' || s.src[k] == '\t' || s.src[k] == '\n' || s.src[k] == '\r')
 //@ loop (*Scanner).Scan#1
